@@ -95,12 +95,15 @@ class BaseSection(base.Sectionable):
 
         # this may fire a change event, so have the section setup then
         self.type = type
-        self.parent = parent
 
         # This might lead to a validation warning, since properties are set
         # at a later point in time.
         self.sec_cardinality = sec_cardinality
         self.prop_cardinality = prop_cardinality
+
+        # Attach to the parent last: an invalid cardinality must not leave
+        # a half initialised Section in the parent.
+        self.parent = parent
 
         for err in validation.Validation(self).errors:
             if err.is_error:
